@@ -1,4 +1,5 @@
 import BtcModel.Bytes
+import BtcModel.Bip32
 import Mathlib.Algebra.Module.Basic
 import Mathlib.Data.ZMod.Basic
 /-!
@@ -126,5 +127,57 @@ theorem derivePriv_depth (pr : Prims n P C S F) (x : XPrv n C F) (path : List Na
     unfold derivePriv at *
     simp only [List.foldl_cons, List.length_cons]
     rw [ih]; simp [ckdPriv]; omega
+
+/-! ## Path spellings (`BtcModel/Bip32.lean` `parsePathItem`, compared with `HDKey.subkey_for_path` on every run)
+
+"every spelling of hardened markers (' h H p P)": the five markers denote the same child number, which is the number
+before the marker plus 2^31. -/
+
+def markers : List Char := ['\'', 'h', 'H', 'p', 'P']
+
+theorem digit_not_marker (c : Char) (h : c.isDigit = true) : c ∉ markers := by
+  intro hm
+  simp [markers] at hm
+  rcases hm with rfl | rfl | rfl | rfl | rfl <;> simp [Char.isDigit] at h
+
+/-- the value of an unmarked item -/
+def plainValue (ds : List Char) : Option Nat :=
+  let n := ds.foldl (fun a d => a * 10 + (d.toNat - 48)) 0
+  if n < 2^32 then some n else none
+
+theorem parse_plain (ds : List Char) (hne : ds ≠ []) (hd : ds.all Char.isDigit = true) :
+    parsePathItem (String.ofList ds) = plainValue ds := by
+  unfold parsePathItem plainValue
+  simp only [String.toList_ofList]
+  obtain ⟨c, hc⟩ : ∃ c, ds.getLast? = some c := by
+    cases h : ds.getLast? with
+    | none => exact absurd (List.getLast?_eq_none_iff.mp h) hne
+    | some c => exact ⟨c, rfl⟩
+  rw [hc]
+  have hcm : c ∈ ds := List.mem_of_getLast? hc
+  have hcd : c.isDigit = true := (List.all_eq_true.mp hd) c hcm
+  have hnm := digit_not_marker c hcd
+  simp only [markers] at hnm
+  simp [hnm, hne, hd]
+
+/-- T: a hardened marker — in any of its five spellings — adds exactly 2^31 to the number before it, and numbers
+from 2^31 on cannot be hardened -/
+theorem parse_hardened (ds : List Char) (hne : ds ≠ []) (hd : ds.all Char.isDigit = true) (c : Char) (hc : c ∈ markers) :
+    parsePathItem (String.ofList (ds ++ [c])) =
+      (let n := ds.foldl (fun a d => a * 10 + (d.toNat - 48)) 0
+       if n < 2^31 then some (n + 2^31) else none) := by
+  unfold parsePathItem
+  simp only [String.toList_ofList, List.getLast?_append, List.getLast?_singleton, Option.some_or, List.dropLast_concat]
+  simp only [markers] at hc
+  simp [hc, hne, hd]
+
+/-- … hence every spelling of the marker denotes the same child number -/
+theorem spelling_independent (ds : List Char) (hne : ds ≠ []) (hd : ds.all Char.isDigit = true) (c c' : Char)
+    (hc : c ∈ markers) (hc' : c' ∈ markers) :
+    parsePathItem (String.ofList (ds ++ [c])) = parsePathItem (String.ofList (ds ++ [c'])) := by
+  rw [parse_hardened ds hne hd c hc, parse_hardened ds hne hd c' hc']
+
+example : parsePathItem "44'" = some (44 + 2^31) ∧ parsePathItem "44h" = some (44 + 2^31) ∧ parsePathItem "2147483648" = some (2^31)
+    ∧ parsePathItem "2147483648'" = none ∧ parsePathItem "'" = none ∧ parsePathItem "4x" = none := by decide +kernel
 
 end Btc.C03
